@@ -1,17 +1,31 @@
 ------------------------------ MODULE Trace_Xml ------------------------------
-(* C17 conformance.  One record per real in-process --xml run:               *)
-(*   repeat, tests = [t, ref (result events under stock unittest)],          *)
-(*   illegal = the character classes XML 1.0 does not allow that occur in    *)
-(*             some message / test name of this world (environment fact),    *)
+(* C17 conformance.  One record per real --xml run:                          *)
+(*   repeat, tests = [t, ref (result events under stock unittest), gated,    *)
+(*           runs]: gated = whether the test runs at all is decided by       *)
+(*           something else than --repeat in this world (a filter, a layer   *)
+(*           whose setUp fails); runs = how often it was seen starting,      *)
+(*   fileClasses[file] = the character classes (labels of                    *)
+(*           XmlReport!CharClasses) that occur in some message / test name   *)
+(*           of the tests reported in that file,                             *)
+(*   probes = [cp, pos, file]: single code points put into a message, a test *)
+(*           name or the traceback text of a test reported in that file,     *)
+(*   imports = [t, module, reported]: test modules made to fail on import    *)
+(*           and whether the runner listed them as import problems,          *)
 (*   files = every report file as read by a strict parser: wellformed,       *)
 (*           tests / errors / failures attributes, numbers of testcase /     *)
-(*           error / failure elements, cases = [t, kind] where t is the      *)
-(*           world test whose own class and name the testcase carries        *)
-(*           ("?" if it carries nobody's) and kind in none/failure/error/both*)
+(*           error / failure elements, cases = [t, kind, odd] where t is the *)
+(*           world test (or broken module) whose own class and name the      *)
+(*           testcase carries ("?" if it carries nobody's), kind in          *)
+(*           none/failure/error/both, odd = [cp, got]: for every character   *)
+(*           of the test's own name outside printable ASCII the code points  *)
+(*           the report has in its place                                     *)
+(* Which code points and classes XML 1.0 allows is XmlReport!XmlChar /       *)
+(* XmlReport!LegalChar - the harness supplies numbers and labels only.       *)
 EXTENDS Naturals, Sequences, FiniteSets, TLC, Json, IOUtils, SequencesExt
 
-X == INSTANCE XmlReport WITH NT <- 0, R <- 0, Deviations <- {}, cls <- 0, outc <- 0,
-                             it <- 0, t <- 0, ev <- 0, suites <- 0, attrs <- 0, pc <- 0
+X == INSTANCE XmlReport WITH NT <- 0, R <- 0, NI <- 0, Deviations <- {}, cls <- 0, outc <- 0,
+                             sel <- 0, imp <- 0, it <- 0, t <- 0, ev <- 0, ran <- 0,
+                             suites <- 0, attrs <- 0, files <- 0, pc <- 0
 
 Recs == JsonDeserialize(IOEnv.TRACE_FILE)
 VARIABLE k
@@ -23,11 +37,13 @@ AllCases(r) == FlattenSeq([f \in 1..Len(r.files) |-> r.files[f].cases])
 NCases(r, tt, K) == Cardinality({j \in 1..Len(AllCases(r)) : AllCases(r)[j].t = tt /\ AllCases(r)[j].kind \in K})
 NEv(ref, K) == Cardinality({j \in 1..Len(ref) : ref[j] \in K})
 Passed(ref) == Len(ref) > 0 /\ \A j \in 1..Len(ref) : ref[j] \in {"ok", "X"}
+(* the iterations in which test j ran *)
+Iters(r, j) == IF r.tests[j].gated THEN r.tests[j].runs ELSE r.repeat
 
 (* ---- I-spec (DRIFT): the exact sequence of testcase entries per report file *)
 (* r.suiteTests[file] = the tests recorded in that file, in execution order;     *)
 (* _record appends one entry per result event (skips excepted), --repeat runs    *)
-(* the layer's tests again                                                       *)
+(* the layer's tests again; an import failure is recorded once, at find time     *)
 EntryKind(e) == IF e \in X!FailKinds THEN "failure" ELSE IF e \in X!ErrKinds THEN "error" ELSE "none"
 RefOf(r, tt) == r.tests[CHOOSE j \in 1..Len(r.tests) : r.tests[j].t = tt].ref
 EntriesOf(r, tt) == LET ev == SelectSeq(RefOf(r, tt), LAMBDA e : e # "S")
@@ -35,35 +51,61 @@ EntriesOf(r, tt) == LET ev == SelectSeq(RefOf(r, tt), LAMBDA e : e # "S")
 OnePass(r, ts) == FlattenSeq([j \in 1..Len(ts) |-> EntriesOf(r, ts[j])])
 PredictedCases(r, ts) == FlattenSeq([i \in 1..r.repeat |-> OnePass(r, ts)])
 ObservedCases(f) == [j \in 1..Len(f.cases) |-> <<f.cases[j].t, f.cases[j].kind>>]
-Drift(r) == \E kk \in 1..Len(r.files) :
-              /\ r.files[kk].wellformed /\ r.files[kk].file \in DOMAIN r.suiteTests
-              /\ ObservedCases(r.files[kk]) # PredictedCases(r, r.suiteTests[r.files[kk].file])
+Drift(r) == \/ \E kk \in 1..Len(r.files) :
+                 /\ r.files[kk].wellformed /\ r.files[kk].file \in DOMAIN r.suiteTests
+                 /\ ObservedCases(r.files[kk]) # PredictedCases(r, r.suiteTests[r.files[kk].file])
+            \/ \E j \in 1..Len(r.imports) :
+                 r.imports[j].reported /\ NCases(r, r.imports[j].t, {"none", "failure", "error", "both"}) # 1
+
+(* the labels of a set of classes in a fixed order, "c0+vt_ff" *)
+ClassOrder == <<"nul", "c0", "vt_ff", "surrogate", "nonchar", "newline", "markup", "cdataend", "plain",
+                "del_c1", "nonascii", "astral">>
+JoinLabels(S) == FoldLeft(LAMBDA acc, c : IF c \notin S THEN acc ELSE IF acc = "" THEN c ELSE acc \o "+" \o c,
+                          "", ClassOrder)
 
 Verdict(r) ==
   LET F == 1..Len(r.files)
       T == 1..Len(r.tests)
       mal == {f \in F : ~r.files[f].wellformed}
+      \* the single code points / classes XML 1.0 does not allow that went into a malformed file
+      badprobes == {p \in 1..Len(r.probes) : /\ ~X!XmlChar(r.probes[p].cp)
+                                             /\ \E f \in mal : r.files[f].file = r.probes[p].file}
+      badclasses == UNION {{c \in ToSet(r.fileClasses[r.files[f].file]) : ~X!LegalChar(c)} :
+                              f \in {g \in mal : r.files[g].file \in DOMAIN r.fileClasses}}
       cnt == {f \in F : \/ r.files[f].tests # r.files[f].ncase
                         \/ r.files[f].errors # r.files[f].nerror
                         \/ r.files[f].failures # r.files[f].nfailure}
-      passmiss == {j \in T : Passed(r.tests[j].ref) /\ NCases(r, r.tests[j].t, {"none"}) < r.repeat}
-      passtwice == {j \in T : Passed(r.tests[j].ref) /\ NCases(r, r.tests[j].t, {"none"}) > r.repeat}
-      nf(j) == r.repeat * NEv(r.tests[j].ref, X!FailKinds)
-      ne(j) == r.repeat * NEv(r.tests[j].ref, X!ErrKinds)
+      impmiss == {j \in 1..Len(r.imports) : /\ r.imports[j].reported
+                                            /\ NCases(r, r.imports[j].t, {"error", "both"}) < 1}
+      passmiss == {j \in T : Passed(r.tests[j].ref) /\ NCases(r, r.tests[j].t, {"none"}) < Iters(r, j)}
+      passtwice == {j \in T : Passed(r.tests[j].ref) /\ NCases(r, r.tests[j].t, {"none"}) > Iters(r, j)}
+      nf(j) == Iters(r, j) * NEv(r.tests[j].ref, X!FailKinds)
+      ne(j) == Iters(r, j) * NEv(r.tests[j].ref, X!ErrKinds)
       identity == {j \in T : \/ NCases(r, r.tests[j].t, {"failure", "both"}) < nf(j)
                              \/ NCases(r, r.tests[j].t, {"error", "both"}) < ne(j)}
+      \* a character of the test's own name that XML 1.0 can carry has to be there
+      \* (one that it cannot carry may be rendered by anything)
+      notcarried == {j \in 1..Len(AllCases(r)) : \E o \in 1..Len(AllCases(r)[j].odd) :
+                        /\ X!XmlChar(AllCases(r)[j].odd[o].cp)
+                        /\ AllCases(r)[j].odd[o].got # <<AllCases(r)[j].odd[o].cp>>}
       extra == {j \in T : \/ NCases(r, r.tests[j].t, {"failure", "both"}) > nf(j)
                           \/ NCases(r, r.tests[j].t, {"error", "both"}) > ne(j)}
       subs(j) == \E e \in ToSet(r.tests[j].ref) : e \in {"SF", "SE"}
   IN IF r.crashed # "" THEN <<"C17:run-aborted", r.crashed>>
      ELSE IF mal # {} THEN <<"C17:malformed",
-                             IF Len(r.illegal) = 0 THEN "although-only-legal-characters" ELSE r.illegal[1]>>
+                             IF badprobes # {}
+                             THEN LET p == r.probes[CHOOSE p \in badprobes : \A q \in badprobes : p <= q]
+                                  IN "code-point-" \o ToString(p.cp) \o "-in-" \o p.pos
+                             ELSE IF badclasses # {} THEN JoinLabels(badclasses)
+                             ELSE "although-only-legal-characters">>
      ELSE IF cnt # {} THEN <<"C17:count", r.files[CHOOSE f \in cnt : TRUE].file>>
+     ELSE IF impmiss # {} THEN <<"C17:import-failure-missing", r.imports[CHOOSE j \in impmiss : TRUE].module>>
      ELSE IF passmiss # {} THEN <<"C17:pass-missing", r.tests[CHOOSE j \in passmiss : TRUE].t>>
      ELSE IF passtwice # {} THEN <<"C17:pass-twice", r.tests[CHOOSE j \in passtwice : TRUE].t>>
      ELSE IF identity # {}
           THEN <<"C17:wrong-identity",
                  IF \A j \in identity : subs(j) THEN "failing-subtest" ELSE "test">>
+     ELSE IF notcarried # {} THEN <<"C17:wrong-identity", "legal-character-of-the-name-not-carried">>
      ELSE IF extra # {} THEN <<"C17:extra-case", r.tests[CHOOSE j \in extra : TRUE].t>>
      ELSE IF Drift(r) THEN <<"DRIFT", "">>
      ELSE <<"", "">>
